@@ -77,9 +77,14 @@ func inlineExternal(fn *ssa.Function) bool {
 		return fn.Signature.Recv() != nil && (strings.Contains(fn.Signature.Recv().Type().String(), "littleEndian") || strings.Contains(fn.Signature.Recv().Type().String(), "bigEndian"))
 	}
 	if fn.Pkg.Pkg.Path() == "bytes" {
-		switch fn.Name() {
-		case "NewBuffer", "Len", "Next", "empty", "Reset":
+		if fn.Name() == "NewBuffer" {
 			return true
+		}
+		if fn.Signature.Recv() != nil && strings.Contains(fn.Signature.Recv().Type().String(), "bytes.Buffer") {
+			switch fn.Name() {
+			case "Len", "Next", "empty", "Reset":
+				return true
+			}
 		}
 		return false
 	}
@@ -544,35 +549,43 @@ func (ex *Exec) doAppend(st *State, fr *Frame, c *ssa.CallCommon, args []Val, po
 			vals[i] = ex.bindVal("ap", read(bvU(i, 64)))
 			ex.markEscaped(vals[i])
 		}
-		// in-place version
-		inplace := st.clone()
+		// Both outcomes (room left: write in place; otherwise: reallocate) put the
+		// same content at the same offsets of the result's backing store: the old
+		// array with the new elements stored after the old length. So the new
+		// memory is one store at the result reference (the old backing store is
+		// untouched when a fresh one is used). The spare capacity of a
+		// reallocated slice is not modelled (cap == len after reallocation).
 		if k > 0 {
 			g := st.guard
 			st.guard = ex.vc.Bind("gfit", SBool, and(g, fits))
 			ex.checkAssigns(st, fr, base.elemAddr(base.ln), pos)
 			st.guard = g
 		}
+		rref := ex.vc.Bind("aref", SRef, ite(fits, base.ref, fresh))
+		tree := ex.heapTree(st, AElems, el)
+		// content array after the append, leaf by leaf
+		idx := func(i uint64) string { return app("bvadd", base.off, app("bvadd", base.ln, bvU(i, 64))) }
+		li := 0
+		valLeaves := make([][]Sc, k)
 		for i := uint64(0); i < k; i++ {
-			ex.store(inplace, base.elemAddr(app("bvadd", base.ln, bvU(i, 64))), vals[i])
+			valLeaves[i] = leavesOf(vals[i])
 		}
-		// fresh version: new array with old prefix
-		moved := st.clone()
-		t2 := ex.heapTree(moved, AElems, el)
-		nt := leafMap(t2, func(l Sc) Sc {
-			_, inner := l.S.ArrParts()
-			oldA := sel(l.T, base.ref)
-			nf := ex.vc.Fresh("moved", inner)
-			ex.arrayDef(st, nf, inner, sel(oldA, app("bvadd", base.off, "qi")), app("bvult", "qi", base.ln))
-			return Sc{sto(l.T, fresh, nf), l.S}
+		nt := leafMap(tree, func(l Sc) Sc {
+			content := sel(l.T, base.ref)
+			for i := uint64(0); i < k; i++ {
+				content = sto(content, idx(i), valLeaves[i][li].T)
+			}
+			li++
+			return Sc{sto(l.T, rref, content), l.S}
 		})
-		ex.setHeapTree(moved, AElems, el, nt)
-		fv := &sliceView{root: true, ref: fresh, off: z64(), elemT: el}
-		for i := uint64(0); i < k; i++ {
-			ex.store(moved, fv.elemAddr(app("bvadd", base.ln, bvU(i, 64))), vals[i])
-		}
-		// merge the two heaps on the element memory only
-		ti, tm := ex.heapTree(inplace, AElems, el), ex.heapTree(moved, AElems, el)
-		ex.setHeapTree(st, AElems, el, leafZip(ti, tm, func(a, b Sc) Sc { return Sc{ite(fits, a.T, b.T), a.S} }))
+		ex.setHeapTree(st, AElems, el, nt)
+		ex.vc.Trust("append: the spare capacity of a reallocated slice is not modelled (cap == len after reallocation)")
+		return &Agg{F: []Val{
+			Sc{rref, SRef},
+			Sc{base.off, BV(64)},
+			Sc{newLen, BV(64)},
+			Sc{ex.vc.Bind("acap2", BV(64), ite(fits, base.cp, newLen)), BV(64)},
+		}}
 	}
 	res := &Agg{F: []Val{
 		Sc{ex.vc.Bind("aref", SRef, ite(fits, base.ref, fresh)), SRef},
